@@ -131,7 +131,13 @@ def window(cfg, scheme, cat, limits):
     v = o.get("vary_rounds")
     if v:
         if isinstance(v, str):
-            v = float(v[:-1]) * 0.01 if v.endswith("%") else float(v) if "." in v else int(v)
+            if v.endswith("%"):
+                v = float(v[:-1]) * 0.01
+            else:
+                try:
+                    v = int(v)
+                except ValueError:
+                    v = float(v)
         if isinstance(v, float):
             if limits["cost"] == "log2":
                 return mn, mx, d, None, None   # log-scale variation is not modelled (window still is)
